@@ -2,25 +2,27 @@
 """Re-evaluates every stored seed against the current checks (tools/eval_seed.sh) and rewrites the
 'checks_that_report_it', 'rules_that_report_it', 'own_property_check_reports_it', 'first_reports' fields of meta.json.
 'history' (what happened at the first evaluation) is kept; for round-2 seeds it is filled from HISTORY.json."""
-import json, glob, os, subprocess
+import json, glob, os, subprocess, sys
 V = os.path.dirname(os.path.dirname(os.path.abspath(__file__)))
+sys.path.insert(0, V + "/tools")
+import eval_par
 hist = json.load(open(V + "/seeded/HISTORY.json"))
 missed2 = set(hist["round2"]["own_check_missed_at_first_evaluation"])
 still = hist["round2"]["still_missed_by_own_check"]
 n = own = 0
-for d in sorted(glob.glob(V + "/seeded/C*-seed*/")):
+DIRS = sorted(glob.glob(V + "/seeded/C*-seed*/"))
+EV = {r["id"]: r for r in eval_par.evaluate(DIRS, int(os.environ.get("JOBS", "8")))}
+for d in DIRS:
     sid = os.path.basename(d.rstrip("/"))
     m = json.load(open(d + "meta.json"))
-    ev = subprocess.run([V + "/tools/eval_seed.sh", d.rstrip("/")], capture_output=True, text=True).stdout
-    fired = [l for l in ev.splitlines() if l.startswith(("VIOLATED", "UNDECIDED"))]
-    summ = [l for l in ev.splitlines() if l.startswith("exit-summary:")]
-    props = summ[0].replace("exit-summary:", "").split() if summ else []
+    if EV[sid].get("error"): print(sid, "ERROR", EV[sid]["error"]); continue
+    fired, props = EV[sid]["fired"], EV[sid]["props"]
     m["checks_that_report_it"] = props
     m["rules_that_report_it"] = sorted(set(l.split()[1].split("|")[0] for l in fired))
     m["own_property_check_reports_it"] = m.get("property") in props
     m["first_reports"] = [l[:240] for l in fired[:4]]
     k = int(sid.split("seed")[1])
-    rnd = 1 if k <= 3 else (2 if k <= 6 else 3)
+    rnd = (k + 2) // 3
     m["round"] = rnd
     if rnd >= 2:
         missed = set(hist["round%d" % rnd]["own_check_missed_at_first_evaluation"])
